@@ -51,7 +51,7 @@ def add_test_into_suite(test: Test, suite: Any) -> None:
     """
     if not hasattr(suite, "_lccgeneratedtests"):
         suite._lccgeneratedtests = []
-    if test.rank is None:
+    if not test.rank:  # a Test instance is created with rank 0, meaning "not yet ranked"
         test.rank = _get_metadata_next_rank()
     suite._lccgeneratedtests.append(test)
 
